@@ -541,6 +541,15 @@ func polygons(c *vkit.Collector, rng *vkit.Rng, budget int) {
 	reused := new(s2.Polygon) // one receiver for all decodes, both formats
 	for k := 0; k < 60*budget; k++ {
 		p, class := cg.GenPolygon(rng)
+		if k%20 == 0 {
+			// more than 12 loops: the polygon keeps a cumulative edge table, which a later decode
+			// into the same receiver must not inherit
+			ls := make([]*s2.Loop, 13+rng.Intn(4))
+			for i := range ls {
+				ls[i] = cg.RawLoop(rng, cg.Vertices(rng, cg.OneLevel, 3+rng.Intn(2), 20))
+			}
+			p, class = s2.VerifC09PolygonRaw(ls, false, cg.ValidRect(rng)), "polygon:many-loops"
+		}
 		b, err := cg.Enc(func(w *bytes.Buffer) error { return p.Encode(w) })
 		b2, _ := cg.Enc(func(w *bytes.Buffer) error { return p.Encode(w) })
 		c.Class(class)
